@@ -926,6 +926,7 @@ func (a *Agent) gatherCandidatesSrflx(ctx context.Context, urls []*stun.URI, net
 				a.log.Warnf("Failed to close candidate: %v", closeErr)
 			}
 			a.log.Warnf("Failed to append to localCandidates and run onCandidateHdlr: %v", err)
+			closeConnAndLog(conn, a.log, "closing srflx conn after addCandidate failure: %v", err)
 		}
 	}
 
